@@ -293,7 +293,7 @@ def pssh_contract(nkids, with_data):
                    + ("bytes_value(result['data']) == payload" if with_data else "is_unset(result['data'])")),
     )
     c.variant = f'ContentProtectionSpecificBox+{nkids}kids{"+data" if with_data else ""}'
-    c.props = ['C04', 'C11']
+    c.props = ['C04', 'C11', 'C10']
     c.canaries = ["result['version'] == 0"]
     c.witness_terms = lambda w: (lambda ev: {k: ev(z3.Int(k)) for k in ['version', 'flags', 'system_id', 'payload'] + [f'kid{k}' for k in range(nkids)]})
     return c
